@@ -48,6 +48,11 @@ func NewFromBytes(b []byte) *Script {
 func NewFromASM(str string) (*Script, error) {
 	s := Script{}
 
+	// the empty script renders as the empty string (see ToASM)
+	if str == "" {
+		return &s, nil
+	}
+
 	for _, section := range strings.Split(str, " ") {
 		if val, ok := opCodeStrings[section]; ok {
 			_ = s.AppendOpcodes(val)
